@@ -760,3 +760,19 @@ Example conv_v2_mixed :
   map o_res (fst (conv_v2 false true true sc_mixed (fun _ => "user") (fun _ => "LLM") "REFUSED" (mkV 2 2 true) 0 6 (mkS2 false false)))
   = [TReply ["REFUSED"]; TReply ["REFUSED"]; TReply []; TReply ["LLM"]; TReply ["REFUSED"]; TReply ["LLM"]].
 Proof. vm_compute. reflexivity. Qed.
+
+(* sanity examples of the model (kept here so that Pipe/Faults.v builds whatever the source says) *)
+Example v1_input_fault :
+  fst (conv_v1 false true (fun t s o => match t, s with 0, SIn 1 => ORaise | _, _ => OAccept end)
+               ex_user ex_llm "REFUSED" ex_cfg 0 2 [])
+  = [mkObs (TReply [v1_internal_error_message]) [(SIn 0, Some "user"); (SIn 1, Some "user")] 0;
+     mkObs (TReply ["LLM"]) [(SIn 0, Some "user"); (SIn 1, Some "user"); (SDialog, None); (SRet, None);
+                             (SOut 0, Some "LLM"); (SOut 1, Some "LLM")] 2].
+Proof. vm_compute. reflexivity. Qed.
+
+(* the shipped compute_context (honours = false): a dialog fault in turn 0 makes every later turn a refusal *)
+Example v1_stale_refusal :
+  map o_res (fst (conv_v1 false false (fun t s o => match t, s with 0, SDialog => ORaise | _, _ => OAccept end)
+                          ex_user ex_llm "REFUSED" ex_cfg 0 2 []))
+  = [TReply [v1_internal_error_message]; TReply ["REFUSED"]].
+Proof. vm_compute. reflexivity. Qed.
